@@ -6,7 +6,7 @@ DROPPING = ("filter", "take", "skip", "take_while", "skip_while", "step_by", "ma
 
 def run(ctx, rep):
     r = rep.rule("R-C13-dir", "checking a directory is checking the list of its entries: the iterator chain from read_dir to the returned Vec only "
-                              "drops unreadable entries (Err), and create_project pushes every enumerated path into the project", floor=5)
+                              "drops unreadable entries (Err), and create_project pushes every enumerated path into the project", floor=6)
     eb = ctx.prog.get("ironplcc::cli::enumerate_files")
     cb = ctx.prog.get("ironplcc::cli::create_project")
     if not eb or not cb:
@@ -119,6 +119,28 @@ def run(ctx, rep):
                     else:
                         r.finding("enumerate_files|entries-not-files", where, "every readable entry of the directory is returned as a source file, directories included: `check dir` fails with P0026 "
                                   "on a sub-directory while `check` of the files in it succeeds")
+    # an argument only fails for a failure of the file system: every other outcome of enumerate_files is a (possibly empty) list of files.
+    # create_project turns one Err into a failure of the whole run, so an Err for "nothing found here" makes `check good emptydir` fail
+    # while the list of the files of both directories checks OK.
+    dom = b.dominators()
+    k = 0
+    for c in sorted(b.calls(), key=lambda c: (c.loc[0], c.loc[1])):
+        if (c.callee or "") != "ironplcc::cli::diagnostic":
+            continue
+        k += 1
+        guarded = False
+        for d_ in dom.get(c.bb, set()):
+            si = switch_info(b, d_)
+            if si and si["kind"] == "bool" and si["subject"][0] == "call" and (si["subject"][1].callee or "").endswith("::is_symlink"):
+                for succ, labs in si["edges"].items():
+                    if labs == [True] and (succ == c.bb or succ in dom.get(c.bb, set())):
+                        guarded = True
+        inst = "enumerate_files|Err outside a file-system failure#%d" % k
+        if guarded:
+            r.ok("enumerate_files|Err for a symlink that cannot be followed", loc_str(b.f, c.loc))
+        else:
+            r.finding(inst, loc_str(b.f, c.loc), "enumerate_files returns an error that is not the failure of a file-system call: an argument that merely contributes no file "
+                      "(an empty directory) fails the whole run, although checking the list of the files of all arguments succeeds")
     # create_project: the loop over the enumerated files pushes each one
     p = cb[0]
     pushes = [c for c in p.calls() if c.callee == "ironplcc::project::FileBackedProject::push"]
